@@ -312,6 +312,8 @@ def init_value_ops(r, ref):
     ops = []
     for key in ["v"] + [k for k in BASE_PARAMS if r.random() < 0.8]:
         ops.append({"op": "set", "view": [], "key": key, "val": {"seed": r.randrange(1 << 30), "array": True}})
+    if r.random() < 0.2:
+        ops[0]["val"]["round"] = True  # whole millivolts (-55.0, -47.0 ...): the values people type, and where rate functions have 0/0
     return ops
 
 
